@@ -95,6 +95,16 @@ pub fn gen_plan(prop: &str, seed: u64, run: u64, tier: Tier) -> Plan {
         let vkey = if purpose == Purp::Local { fk.local } else { fk.public };
         let alias = b.rng.bool();
         b.push(Step::Deliver { tok, node: verifier, key: vkey, purpose: None, faults: vec![], pk: None, fk: None, validator: VSpec::None, alias, now_ns: now, pair_with: None });
+        // token refresh: the verifier seals the object it got out of unseal again (same or new claims)
+        if b.rng.chance(1, 3) {
+            let tok2 = b.tok_slot();
+            let new_claims = if b.rng.bool() { Some(b.claims(thorough)) } else { None };
+            let new_aad = b.aad_for(bk);
+            let rng = b.healthy_rng();
+            b.push(Step::Reseal { tok: tok2, from: tok, node: verifier, ukey: vkey, skey: key, claims: new_claims, aad: new_aad, rng, now_ns: now });
+            let reader = *b.rng.pick(&fam_nodes);
+            b.push(Step::Deliver { tok: tok2, node: reader, key: vkey, purpose: None, faults: vec![], pk: None, fk: None, validator: VSpec::None, alias: false, now_ns: now, pair_with: None });
+        }
     }
     let _ = Kind::Local;
     b.finish()
